@@ -35,10 +35,12 @@
   `r · nfiles + j` ("key") of `Disk.dir`, and `_open_files` is keyed by that file-system path —
   not by the torrent's file.  Nothing else about the path is remembered by the object.
 
-  Faults.  An operation may be decorated with a transient I/O fault: the first `fh.seek()` /
-  `fh.read()` the operation performs on listed file `j` raises OSError (once).  `get_piece` turns it
-  into ReadError (`except OSError as e: raise ReadError(e.errno, file)`), so does the reader of
-  `iter_pieces` (`_iter_from_file_handle`); the handle stays in the table, open and usable.
+  Faults.  An operation may be decorated with a transient I/O fault: the first `fh.seek()` (or the
+  first `fh.read()`) the operation performs on listed file `j` raises OSError (once).  `get_piece`
+  turns either into ReadError (`except OSError as e: raise ReadError(e.errno, file)`); the reader
+  of `iter_pieces` (`_iter_from_file_handle`) does so for `read`, but its `fh.seek(skip_bytes)`
+  stands BEFORE the try block: that OSError escapes as it is (finding D19d).  The handle stays in
+  the table, open and usable.
 
   Granularity: offsets are not part of a handle here (`fh.seek(...)` precedes every read, see
   above), a reading operation works on the inode `_get_open_file` returned.  `iter_pieces` is the
@@ -129,9 +131,22 @@ inductive Err where
   | size           -- VerifyFileSizeError
   | readNoent      -- ReadError(ENOENT)
   | readOther      -- ReadError with another errno (EISDIR)
-  | typeError      -- TypeError: `VerifyFileSizeError(path, None, size)` compares `None > size`
+  | osError        -- a raw OSError (not a TorfError): `fh.seek(skip_bytes)` of `iter_pieces` is outside its try block
   | internal       -- an undocumented exception escapes `iter_pieces` (`Missing.St.failed`)
 deriving DecidableEq, Repr
+
+/-- a transient fault: the first `seek()` (`seek = true`) or `read()` on listed file `file` that
+    the operation performs raises OSError -/
+structure Fault where
+  file : Nat
+  seek : Bool
+deriving DecidableEq, Repr
+
+/-- does the fault hit listed file `j`?  (`some isSeek`) -/
+def faultAt (fault : Option Fault) (j : Nat) : Option Bool :=
+  match fault with
+  | some f => if f.file = j then some f.seek else none
+  | none => none
 
 /-- `open(path, 'rb')` -/
 def openPath (d : Disk α) (j : Nat) : Except Err Nat :=
@@ -229,18 +244,18 @@ def bycatchView [Inhabited α] (memo : Bool) (d : Disk α) (base n : Nat) (o : O
   else d.view base n
 
 /-- state of the loop of `iter_pieces`: the loop variables (`Missing.St`), the object, and whether
-    a read raised OSError (→ ReadError escapes, the generator is dead) -/
+    a `seek`/`read` raised OSError (→ the error that escapes; the generator is dead) -/
 structure ISt (α : Type) where
   st : Missing.St α := {}
   obj : Obj
-  io : Bool := false
+  io : Option Err := none
 
 /-- one iteration of `for file in self._torrent.files:`; `base` = key of listed file 0 under the
-    effective content path, `fault` = the listed file whose first read raises OSError -/
-def iterStep [Inhabited α] (c : Cfg α δ) (d : Disk α) (base : Nat) (fault : Option Nat)
+    effective content path, `fault` = the transient fault of this operation -/
+def iterStep [Inhabited α] (c : Cfg α δ) (d : Disk α) (base : Nat) (fault : Option Fault)
     (k : Option Nat) (s : ISt α) (j : Nat) : ISt α :=
   -- suspended at a `yield` for ever / an exception has escaped / `if file in bycatch_files: continue`
-  if !live k s.st || s.st.failed || s.io || s.st.bycatch.contains j then s else
+  if !live k s.st || s.st.failed || s.io.isSome || s.st.bycatch.contains j then s else
   -- `actual_file_size = self._get_file_size_from_fs(filepath)`
   let sz := statSize c.memo d s.obj (base + j)
   -- `if actual_file_size is not None and file.size != actual_file_size:`
@@ -253,9 +268,11 @@ def iterStep [Inhabited α] (c : Cfg α δ) (d : Disk α) (base : Nat) (fault : 
     let o : Obj := { sz.2 with tbl := r.2 }
     match r.1 with
     | .ok i =>
-      -- the first `fh.read()` comes before the first new item: `except OSError: raise ReadError`
-      if fault = some j then { s with obj := o, io := true }
-      else { s with st := goodFile c.L d s.st i, obj := o }
+      -- `fh.seek(skip_bytes)` (outside the try block: OSError escapes) and the first `fh.read()`
+      -- (`except OSError: raise ReadError`) come before the first new item
+      match faultAt fault j with
+      | some isSeek => { s with obj := o, io := some (if isSeek then .osError else .readOther) }
+      | Option.none => { s with st := goodFile c.L d s.st i, obj := o }
     | .error _ =>
       { s with st := badFile c.L c.sizes (bycatchView c.memo d base c.sizes.length o) s.st j .read, obj := o }
 
@@ -277,15 +294,15 @@ def iterOut (k : Option Nat) (st : Missing.St α) : Out α δ :=
 
 /-- `iter_pieces()` driven by a consumer that takes `k` items (`none`: all) and then drops the
     generator -/
-def iterRun [Inhabited α] (c : Cfg α δ) (d : Disk α) (base : Nat) (fault : Option Nat) (k : Option Nat)
+def iterRun [Inhabited α] (c : Cfg α δ) (d : Disk α) (base : Nat) (fault : Option Fault) (k : Option Nat)
     (o : Obj) : Out α δ × Obj :=
   let r := (List.range c.sizes.length).foldl (iterStep c d base fault k) { obj := o }
-  (if r.io then .err .readOther else iterOut k r.st, r.obj)
+  (match r.io with | some e => .err e | Option.none => iterOut k r.st, r.obj)
 
 /-! ### `get_piece`, `get_piece_hash`, `verify_piece`, `close` -/
 
 /-- `for file in relevant_files:` of `get_piece` (state: seek_to, bytes_to_read, piece) -/
-def getPieceLoop (c : Cfg α δ) (d : Disk α) (base : Nat) (fault : Option Nat) :
+def getPieceLoop (c : Cfg α δ) (d : Disk α) (base : Nat) (fault : Option Fault) :
     List Nat → Nat → Nat → List α → Obj → Except Err (List α) × Obj
   | [], _, _, piece, o => (.ok piece, o)
   | j :: js, seekTo, n, piece, o =>
@@ -295,19 +312,18 @@ def getPieceLoop (c : Cfg α δ) (d : Disk α) (base : Nat) (fault : Option Nat)
     match r.1 with
     | .error e => (.error e, o)
     | .ok i =>
-      -- `if self._get_file_size_from_fs(filepath) != file.size: raise VerifyFileSizeError(filepath,
-      -- actual_file_size, file.size)` — whose constructor evaluates `actual_size > expected_size`: for
-      -- `None` (the path of the cached handle does not exist any more) that is a TypeError
+      -- `if actual_file_size is not None and actual_file_size != file.size: raise VerifyFileSizeError`
+      -- (since 685c3fc; before, `None` — the path of the cached handle does not exist any more — made
+      -- the constructor of VerifyFileSizeError raise TypeError: finding D19c)
       let sz := statSize c.memo d o (base + j)
-      if sz.1 != some (Missing.sizeOf c.sizes j) then
-        (.error (if sz.1.isNone then .typeError else .size), sz.2) else
+      if sz.1.isSome && sz.1 != some (Missing.sizeOf c.sizes j) then (.error .size, sz.2) else
       -- `try: fh.seek(seek_to); …; content = fh.read(bytes_to_read) … except OSError as e: raise
       -- ReadError(e.errno, file)` (the handle stays in the table)
-      if fault = some j then (.error .readOther, sz.2) else
+      if (faultAt fault j).isSome then (.error .readOther, sz.2) else
       let content := ((d.bytes i).drop seekTo).take n
       getPieceLoop c d base fault js 0 (n - content.length) (piece ++ content) sz.2
 
-def getPiece (c : Cfg α δ) (d : Disk α) (base : Nat) (fault : Option Nat) (i : Int) (o : Obj) :
+def getPiece (c : Cfg α δ) (d : Disk α) (base : Nat) (fault : Option Fault) (i : Int) (o : Obj) :
     Except Err (List α) × Obj :=
   let T := c.total
   -- `if not 0 <= piece_index <= math.floor((torrent_size - 1) / piece_size): raise ValueError`
@@ -338,7 +354,8 @@ def closeObj (_o : Obj) : Obj := {}
 
 /-- one public operation with the `content_path` argument `arg` (a root, or `none`) and the
     transient fault `fault` (`none`: no fault) on the object `o` -/
-def run [BEq δ] [Inhabited α] (c : Cfg α δ) (d : Disk α) (arg fault : Option Nat) (op : Handles.Op)
+def run [BEq δ] [Inhabited α] (c : Cfg α δ) (d : Disk α) (arg : Option Nat) (fault : Option Fault)
+    (op : Handles.Op)
     (o : Obj) : Res α δ :=
   let base := c.base arg
   match op with
@@ -388,8 +405,8 @@ def specGetPieceLoop (c : Cfg α δ) (d : Disk α) (base : Nat) :
     match openPath d (base + j) with
     | .error e => .error e
     | .ok i =>
-      if d.size (base + j) != some (Missing.sizeOf c.sizes j) then
-        .error (if (d.size (base + j)).isNone then .typeError else .size) else
+      if (d.size (base + j)).isSome && d.size (base + j) != some (Missing.sizeOf c.sizes j) then
+        .error .size else
       let content := ((d.bytes i).drop seekTo).take n
       specGetPieceLoop c d base js 0 (n - content.length) (piece ++ content)
 
@@ -501,7 +518,7 @@ def Disk.apply (d : Disk α) : DiskOp α → Disk α
 
 inductive Step (α δ : Type) where
   /-- a public operation: `content_path` argument, transient fault, operation -/
-  | op (arg fault : Option Nat) (o : Handles.Op)
+  | op (arg : Option Nat) (fault : Option Fault) (o : Handles.Op)
   | disk (x : DiskOp α)
   /-- `metainfo['info']['pieces'] = …` -/
   | setStored (hs : List δ)
@@ -513,6 +530,7 @@ structure Row (α δ : Type) where
   out : Out α δ
   nopen : Nat
   clean : Bool
+deriving DecidableEq, Repr
 
 /-- run a history on one object -/
 def runAllD [BEq δ] [Inhabited α] (c : Cfg α δ) : Disk α → List (Step α δ) → Obj → List (Row α δ)
